@@ -229,3 +229,11 @@ func Negate(op token.Token) token.Token {
 	}
 	return token.ILLEGAL
 }
+
+// ConstValInt returns the integer value of a constant object.
+func ConstValInt(c *types.Const) (int64, bool) {
+	if c == nil || c.Val() == nil {
+		return 0, false
+	}
+	return constToInt(types.TypeAndValue{Value: c.Val()})
+}
